@@ -18,5 +18,8 @@ def check(tier, seed):
     d.explanation = ("Per-iteration obligations of the real loop body of product_by_order (symbolic block indices, symbolic number of "
                      "parameters and orders, symbolic sentinel tags), footprint and laziness obligations at every element read, "
                      "structure of cauchy_dot_product for 2..n factors (induction step on the number of factors).")
+    d.add_callsite_witness("statement:hermitian-flag/product-hermitian-is-not-enough", "series_battery.py", "herm_flag_finding",
+                           "literal clause of C18: hermitian=True 'for a product that is Hermitian' leaves values unchanged. The code needs the stronger "
+                           "precondition second = adjoint(first) (under which the clause is proved); the weaker literal condition has a counterexample")
     d.run_battery("series_battery.py", ['product'], "shapes <= (2,3), <= 2 infinite dimensions, orders <= 3, fixed list of index entries, 4x4 two-block problems; see replay/series_battery.py")
     return d.finish(level="proof", trusted_base=["contracts/series_product.py", "contracts/series_index.py"])
